@@ -148,3 +148,46 @@ Proof.
   split; [reflexivity|]. apply Em_EC; [exact Hn|lia|exact Hs].
 Qed.
 Print Assumptions helper_history_independent.
+
+(* ---- totality: with enough fuel a call with valid arguments succeeds, whatever (coherent) dictionary it starts from ---- *)
+Definition CallTot (bound : Z) (call : zcache -> Z -> Z -> zcache * res Z) :=
+  forall c n s c' r, Coh c -> call c n s = (c', r) -> 1 <= n <= bound -> Z.min 1 (n - 1) <= s -> exists v, r = Ok v.
+Lemma loopE_total call bound : CallOK call -> CallTot bound call -> forall cnt i n s c m c' r, Coh c -> 2 <= s -> n - 1 <= bound ->
+  1 <= i -> i + Z.of_nat cnt <= n ->
+  loopE call cnt i n s c m = (c', r) -> exists m', r = Ok m' /\ (cnt <> O \/ m <> None -> m' <> None).
+Proof.
+  intros Hok Htot. induction cnt as [|cnt IH]; intros i n s c m c' r Hc Hs Hb Hi Hbd H; cbn [loopE] in H.
+  - injection H as <- <-. exists m. split; [reflexivity|]. intros [E|E]; congruence.
+  - destruct (call c i s) as [c1 ra] eqn:E1. destruct (Hok _ _ _ _ _ Hc E1) as (Hc1 & _ & _).
+    destruct (Htot _ _ _ _ _ Hc E1 ltac:(lia) ltac:(lia)) as (a & ->).
+    destruct (call c1 (n - i) (s - 1)) as [c2 rb] eqn:E2. destruct (Hok _ _ _ _ _ Hc1 E2) as (Hc2 & _ & _).
+    destruct (Htot _ _ _ _ _ Hc1 E2 ltac:(lia) ltac:(lia)) as (b & ->).
+    destruct (IH (i + 1) n s c2 _ c' r Hc2 Hs Hb ltac:(lia) ltac:(lia) H) as (m' & Hm & Hne).
+    exists m'. split; [exact Hm|]. intros _. apply Hne. right. destruct m as [m0|]; [destruct (_ <? _)|]; congruence.
+Qed.
+Theorem EmS_total : forall fuel, CallTot (Z.of_nat fuel) (EmS fuel).
+Proof.
+  induction fuel as [|f IH]; intros c n s c' r Hc H Hn Hs; [lia|].
+  cbn [EmS] in H. cbn zeta in H. set (s' := Z.min s (n - 1)) in *.
+  destruct (zfind n s' c) as [v|] eqn:Ef; [injection H as <- <-; eauto|].
+  destruct (Z.leb_spec n 0); [lia|].
+  destruct ((s' <? Z.min 1 (n - 1)) || (s' >? n - 1)) eqn:Eg.
+  { exfalso. apply orb_true_iff in Eg. destruct Eg as [Eg|Eg]; [apply Z.ltb_lt in Eg|rewrite Z.gtb_ltb in Eg; apply Z.ltb_lt in Eg]; unfold s' in *; lia. }
+  destruct (Z.eqb_spec n 1); [injection H as <- <-; eauto|].
+  destruct (Z.eqb_spec s' 1); [injection H as <- <-; eauto|].
+  destruct (loopE (EmS f) (Z.to_nat (n - 1)) 1 n s' c None) as [c1 rm] eqn:El.
+  destruct (loopE_total (EmS f) (Z.of_nat f) (EmS_ok f) IH (Z.to_nat (n - 1)) 1 n s' c None c1 rm Hc ltac:(unfold s' in *; lia) ltac:(lia) ltac:(lia) ltac:(lia) El) as (m' & -> & Hne).
+  destruct m' as [v|]; [injection H as <- <-; eauto|]. exfalso. apply Hne; [left; lia|reflexivity].
+Qed.
+(* the published helpers exactly as the extracted driver evaluates them (a fresh dictionary, fuel n + 2) *)
+Theorem optimal_extra_steps_value n s : 1 <= n -> Z.min 1 (n - 1) <= s -> optimal_extra_steps n s = Ok (EC n s).
+Proof.
+  intros Hn Hs. unfold optimal_extra_steps. destruct (EmS (Z.to_nat (n + 2)) [] n s) as [c' r] eqn:E. cbn [snd].
+  assert (H0 : Coh []) by (intros a b v H; discriminate).
+  assert (Hb : 1 <= n <= Z.of_nat (Z.to_nat (n + 2))) by lia.
+  destruct (EmS_total _ _ _ _ _ _ H0 E Hb Hs) as (v & ->).
+  destruct (EmS_ok _ _ _ _ _ _ H0 E) as (_ & _ & Hv). destruct (Hv v eq_refl) as (_ & _ & ->). reflexivity.
+Qed.
+Theorem optimal_steps_binomial_value n s : 1 <= n -> Z.min 1 (n - 1) <= s -> optimal_steps_binomial n s = Ok (n + EC n s).
+Proof. intros Hn Hs. unfold optimal_steps_binomial. rewrite (optimal_extra_steps_value n s Hn Hs). reflexivity. Qed.
+Print Assumptions optimal_steps_binomial_value.
